@@ -211,6 +211,14 @@ class CSSNamespaceRule(cssrule.CSSRule):
                     'CSSNamespaceRule: No ";" found: %s' % self._valuestr(cssText)
                 )
 
+            if wellformed and self._namespaceURI not in (None, new['uri']):
+                # refuse before anything of the new text is taken over
+                wellformed = False
+                self._log.error(
+                    'CSSNamespaceRule: namespaceURI is readonly.',
+                    error=xml.dom.NoModificationAllowedErr,
+                )
+
             # set all
             if wellformed:
                 self.atkeyword = new['keyword']
